@@ -250,7 +250,7 @@ pub fn stats_for_bed_item(
             lemma_tot_bound(interval@.take(i__1 as int + 1), start, end); 
         }
         let num_bases = val.end - val.start;
-        bases = bases + (1);
+        bases = bases + (num_bases);
         sum = sum + (f64::from(num_bases) * f64::from(val.value));
         min = min.min(f64::from(val.value));
         max = max.max(f64::from(val.value));
